@@ -282,7 +282,9 @@ func TestVerifC03(t *testing.T) {
 			}
 			nu := []int{0, 0, 0, 1, 2, 5}[rng.intn(6)]
 			for k := 0; k < nu; k++ {
-				c.Undeclared = append(c.Undeclared, [2]string{"X-Undeclared-" + fmt.Sprint(k), fmt.Sprintf("u%d-%d", i, k)})
+				// names of every shape (the serialiser and the proxy must not care what a trailer is called: also names that begin
+				// with the letters of "Trailer:", the prefix under which ReverseProxy hands undeclared trailers over)
+				c.Undeclared = append(c.Undeclared, [2]string{[]string{"X-Undeclared-0", "Trace-Id", "Total-Count", "T1", "Retry-Hint", "Etag-Of-Body"}[(k+i)%6] + []string{"", "-B"}[k/6%2], fmt.Sprintf("u%d-%d", i, k)})
 			}
 		}
 		switch rng.intn(12) {
